@@ -36,10 +36,11 @@ type DisputeMonitor struct {
 	// ledger per dispute hash
 	in, out      map[string]math.Int
 	failedPaid   map[string]bool
-	refundClaims map[string]bool // id|payer
-	rewardClaims map[string]bool // id|voter
-	divisions    int64           // truncating divisions performed by refunds / rewards
-	bal          math.Int        // dispute module balance at last observation
+	refundClaims map[string]bool     // id|payer
+	rewardClaims map[string]bool     // id|voter
+	rewardPaid   map[string]math.Int // dispute hash -> what voters have taken out so far
+	divisions    int64               // truncating divisions performed by refunds / rewards
+	bal          math.Int            // dispute module balance at last observation
 	stake        map[string]math.Int
 	supplyPrev   math.Int
 	s1Exec       map[uint64]bool
@@ -435,6 +436,15 @@ func (m *DisputeMonitor) AfterTx(c *Chain, ctx sdk.Context, tx sdk.Tx, ok bool) 
 				m.rewardClaims[key] = true
 				addTo(m.out, string(d.HashId), dBal.Neg())
 				m.divisions++
+				// "the claims never exceed their pot": what voters took out of this dispute so far vs. its voter reward
+				if m.rewardPaid == nil {
+					m.rewardPaid = map[string]math.Int{}
+				}
+				addTo(m.rewardPaid, string(d.HashId), dBal.Neg())
+				m.st.Count("c13.reward-pot.evals")
+				if paid := m.rewardPaid[string(d.HashId)]; paid.GT(d.VoterReward) {
+					c.Violate("C13", "dispute", "voter-reward-claims-exceed-the-pot", map[string]interface{}{"id": x.DisputeId, "paid_so_far": paid.String(), "pot": d.VoterReward.String(), "claimer": x.CallerAddress})
+				}
 				if dBal.IsPositive() {
 					c.Violate("C13", "dispute", "reward-claim-increased-escrow", map[string]interface{}{"id": x.DisputeId})
 				}
